@@ -79,6 +79,7 @@ def plan(tier, seed):
         shards.append({'kind': 'sha', 'mode': 'fresh', 'n': ncorp, '_env': {'PYTHONHASHSEED': '3', **extra}})
     shards.append({'kind': 'strict-import'})
     shards.append({'kind': 'shared-parser'})
+    shards.append({'kind': 'cwd', 'n': 150 if tier == 'quick' else 2500})
     trials = 10 if tier == 'quick' else 200
     for t in range(trials):
         shards.append({'kind': 'threads', 'trial': t, '_env': {'PYTHONHASHSEED': str(t % 5)}})
@@ -592,15 +593,90 @@ def run_strict_import(shard, ctx):
     r.sample({'strict_import': 'python -W always / -W error::SyntaxWarning -c "import excel2pycl, ..." in a fresh process'})
 
 
+def run_cwd(shard, ctx):
+    """relative workbook paths and a host that changes its working directory between facade calls.  Three directories hold a workbook of
+    the same NAME with different content (one directory holds none; one is also reachable through a symbolic link, so "link/../book.xlsx"
+    is not "book.xlsx").  Histories of (path spelling | chdir | entry | get | write); the oracle for a request that follows a setter is
+    a FRESH parser given the same spelling in the working directory of the request ("the file path in force at the time of the call");
+    a request without a setter since the last successful one repeats its text.  The workdir of the process is restored afterwards."""
+    from excel2pycl import Parser, Cell
+    r, rng = ctx.r, ctx.rng
+    root = os.path.join(ctx.workdir, 'cwd')
+    dirs = [os.path.join(root, n) for n in ('a', 'b', 'deep/c', 'empty')]
+    for i, d in enumerate(dirs):
+        os.makedirs(os.path.join(d, 'sub'), exist_ok=True)
+        if i < 3:
+            wbspec.write(wbspec.spec(wbspec.sheet('S', {'A1': 100 * (i + 1), 'A2': i, 'B1': f'=A1+A2+{i}', 'B2': '=SUM(A1:A2)'})), os.path.join(d, 'book.xlsx'))
+    # a/link -> deep/c : "link/../book.xlsx" from a/ names deep/book.xlsx (absent), while its textual clean-up names a/book.xlsx
+    if not os.path.islink(os.path.join(dirs[0], 'link')):
+        os.symlink(dirs[2], os.path.join(dirs[0], 'link'))
+    wbspec.write(wbspec.spec(wbspec.sheet('S', {'A1': 777, 'B1': '=A1*2'})), os.path.join(root, 'deep', 'book.xlsx'))
+    spellings = ['book.xlsx', './book.xlsx', 'sub/../book.xlsx', 'link/../book.xlsx', '../a/book.xlsx', '../b/book.xlsx']
+    ops = [('path', k) for k in range(len(spellings))] + [('chdir', k) for k in range(len(dirs))] * 2 + [('entry', 0), ('entry', 1), ('get',), ('get',), ('write',)]
+    home = os.getcwd()
+    fresh_cache = {}
+
+    def fresh(cwd_i, sp_i, entry):
+        key = (cwd_i, sp_i, entry)
+        if key not in fresh_cache:
+            q = Parser().set_excel_file_path(spellings[sp_i])
+            if entry:
+                q.set_entrypoint_cell(Cell(0, 1, 0))
+            o = pipeline.guarded(q.get_translation, 'translate')
+            fresh_cache[key] = ('text', o.value) if o.ok else ('exc', o.exc_name)
+        return fresh_cache[key]
+
+    try:
+        for h in range(shard.get('n', 120)):
+            hist = [('chdir', rng.randrange(3)), ('path', rng.randrange(len(spellings)))] + [rng.choice(ops) for _ in range(rng.randrange(2, 9))] + [('get',)]
+            p = Parser()
+            cwd_i, sp_i, entry, dirty, last = None, None, 0, True, None
+            for step, op in enumerate(hist):
+                if op[0] == 'chdir':
+                    os.chdir(dirs[op[1]])
+                    cwd_i = op[1]
+                elif op[0] == 'path':
+                    p.set_excel_file_path(spellings[op[1]])
+                    sp_i, dirty = op[1], True
+                elif op[0] == 'entry':
+                    p.set_entrypoint_cell(Cell(0, 1, 0) if op[1] else None)
+                    entry, dirty = op[1], True
+                else:
+                    if op[0] == 'get':
+                        o = pipeline.guarded(p.get_translation, 'translate')
+                        got = ('text', o.value) if o.ok else ('exc', o.exc_name)
+                    else:
+                        fp = os.path.join(root, 'out.py')
+                        o = pipeline.guarded(lambda: p.write_translation(fp), 'translate')
+                        got = ('text', open(fp, encoding='utf-8', newline='').read()) if o.ok else ('exc', o.exc_name)
+                    exp = fresh(cwd_i, sp_i, entry) if (dirty or last is None or last[0] != 'text') else last
+                    r.ev()
+                    r.count('cwd_requests_checked')
+                    r.nt(('cwd', cwd_i, sp_i, entry, dirty))
+                    if got != exp:
+                        report(r, ID, None, {'cwd_history': [list(o_) for o_ in hist], 'step': step, 'spellings': spellings, 'dirs': ['a', 'b', 'deep/c', 'empty']},
+                               {'kind': got[0], 'sha_or_exc': hashlib.sha256(got[1].encode()).hexdigest()[:12] if got[0] == 'text' else got[1]},
+                               {'kind': exp[0], 'sha_or_exc': hashlib.sha256(exp[1].encode()).hexdigest()[:12] if exp[0] == 'text' else exp[1],
+                                'as': 'a fresh parser given the same spelling in the working directory of the request'}, monitor='facade-model')
+                    last = got
+                    dirty = got[0] != 'text'
+                    r.seen('cwd_outcomes', got[0] if got[0] == 'text' else got[1])
+    finally:
+        os.chdir(home)
+    r.sample({'cwd_history': [list(o_) for o_ in hist], 'spellings': spellings})
+
+
 def run_shard(shard, ctx):
     if 'replay' in shard:
         c = shard['replay']
+        if 'cwd_history' in c:
+            return run_cwd({'n': 200}, ctx)
         if 'history' in c:
             return run_histories({'one': c['history']}, ctx)
         if 'trial' in c:
             return run_threads({'trial': c['trial']}, ctx)
         return run_sha({'mode': 'fresh', 'n': 8}, ctx)
-    {'histories': run_histories, 'sha': run_sha, 'threads': run_threads, 'strict-import': run_strict_import, 'shared-parser': run_shared_parser}[shard['kind']](shard, ctx)
+    {'histories': run_histories, 'sha': run_sha, 'threads': run_threads, 'strict-import': run_strict_import, 'shared-parser': run_shared_parser, 'cwd': run_cwd}[shard['kind']](shard, ctx)
 
 
 def finish(r, tier, seed):
